@@ -292,6 +292,56 @@ def first_mirror_diff(s1, s2):
     return None
 
 
+def compare_run(ctx, case, kinds, snaps, trace, left, right, counting):
+    """model trace against the snapshots of one real run: ("agree" | "undefined" | "near_tie" | "diff", step index or
+    None for the returned products, first difference, compared exactly to the end?)"""
+    exact = True
+    for k, (sn, mo) in enumerate(zip(snaps, trace)):
+        kind = kinds[k]
+        if counting:
+            ctx.count("pipeline_step_" + kind)
+        if kind == "refinement":
+            exact = False
+        if mo[1] != 1:
+            if counting:
+                ctx.count("pipeline_refinement_undefined_in_model")
+            return "undefined", k, None, exact
+        if kind == "validation" and not exact and k > 0 and \
+                near_tie(snaps[k - 1], float(case["steps"][k][1]["cross_checking_threshold"])):
+            if counting:
+                ctx.count("pipeline_comparison_stopped_near_tie")
+            return "near_tie", k, None, exact
+        if mo[0] != sn["kind"]:
+            diff = f"state kind: impl {sn['kind']} model {mo[0]}"
+        else:
+            diff = cmp_side(sn["kind"], sn["left"], mo[2], exact, "left") or \
+                cmp_side(sn["kind"], sn["right"], mo[3], exact, "right")
+        if counting:
+            ctx.count("pipeline_states_compared")
+        if diff:
+            return "diff", k, diff, exact
+    # at the end: the two datasets pandora.run returns against the final state of the model
+    if trace and trace[-1][0] == 1:
+        diff = cmp_side(1, grab_ds(left), trace[-1][2], exact, "returned left") or \
+            cmp_side(1, grab_ds(right), trace[-1][3], exact, "returned right")
+        if counting:
+            ctx.count("pipeline_final_products_compared")
+        if diff:
+            return "diff", None, diff, exact
+    return "agree", None, None, exact
+
+
+def cut_case(case, k):
+    """the case with its pipeline cut after step k; a validation step is kept (appended) so that the cut pipeline
+    still computes right products"""
+    cut = dict(case)
+    cut["steps"] = case["steps"][:k + 1]
+    kinds = [n.split(".")[0] for n, _ in case["steps"]]
+    if "validation" in kinds and "validation" not in kinds[:k + 1]:
+        cut["steps"] = cut["steps"] + [next(s for s in case["steps"] if s[0].split(".")[0] == "validation")]
+    return cut
+
+
 # ---------------------------------------------------------------------------- the stream
 
 
@@ -313,11 +363,22 @@ def run_stream(ctx, n_cases):
             continue
         rdm, trace = res
         try:
-            snaps, cbtrace, _, right = run_real(case)
+            snaps, cbtrace, left, right = run_real(case)
         except Exception as exc:  # pylint: disable=broad-except
             ctx.case(None)
             ctx.count("pipeline_run_raised_" + pu.exc_class(exc))
             ctx.mismatch("pipeline_run_raised", case, f"{type(exc).__name__}: {exc}"[:200], "the model defines every step")
+            if has_val:
+                # does the run fail because of the right pass?  the same pipeline without its validation steps
+                nov = dict(case)
+                nov["steps"] = [s for s in case["steps"] if s[0].split(".")[0] != "validation"]
+                try:
+                    run_real(nov)
+                    ctx.violation("pipeline_right_pass_raises",
+                                  f"pipeline {names} on a well-formed pair raises {type(exc).__name__}: {str(exc)[:120]}; "
+                                  f"without its validation step(s) it runs: the right pass fails, no right products", case)
+                except Exception:  # pylint: disable=broad-except
+                    pass
             continue
         ctx.traces += 1
         ctx.count("pipeline_runs")
@@ -326,57 +387,49 @@ def run_stream(ctx, n_cases):
         if [tuple(t) for t in cbtrace] != want or (rdm == 1) != has_val or len(snaps) != len(trace):
             ctx.mismatch("pipeline_callbacks", case, [list(t) for t in cbtrace], {"rdm": rdm, "steps": names})
             continue
-        exact = True
-        agreed = True
-        for k, (sn, mo) in enumerate(zip(snaps, trace)):
-            kind = kinds[k]
-            ctx.count("pipeline_step_" + kind)
-            if kind == "refinement":
-                exact = False
-            if mo[1] != 1:
-                ctx.count("pipeline_refinement_undefined_in_model")
-                agreed = False
-                break
-            if kind == "validation" and not exact and k > 0 and near_tie(snaps[k - 1], float(case["steps"][k][1]["cross_checking_threshold"])):
-                ctx.count("pipeline_comparison_stopped_near_tie")
-                agreed = False
-                break
-            diff = None
-            if mo[0] != sn["kind"]:
-                diff = f"state kind: impl {sn['kind']} model {mo[0]}"
+        status, k, diff, exact = compare_run(ctx, case, kinds, snaps, trace, left, right, True)
+        if status == "diff":
+            # a disagreement counts only if it is reproducible: the real run once more (fresh machine)
+            again = None
+            try:
+                snaps_b, _, left_b, right_b = run_real(case)
+                again = compare_run(ctx, case, kinds, snaps_b, trace, left_b, right_b, False)
+            except Exception:  # pylint: disable=broad-except
+                pass
+            if again is not None and again[0] != "diff":
+                ctx.count("pipeline_disagreement_not_reproduced_on_a_second_run")
+                ctx.notes.append(f"pipeline stream: the real run of {names} (case {case['id']}) disagreed with the model "
+                                 f"({diff}) and agreed on a second run of the same input: the real code was not "
+                                 f"reproducible there")
+                status = "agree" if again[0] == "agree" else again[0]
+            elif k is None:
+                ctx.mismatch("pipeline_final_products", case, diff, "Model/PipelineRun.v run_pipeline")
             else:
-                diff = cmp_side(sn["kind"], sn["left"], mo[2], exact, "left") or \
-                    cmp_side(sn["kind"], sn["right"], mo[3], exact, "right")
-            ctx.count("pipeline_states_compared")
-            if diff:
-                cut = dict(case)
-                cut["steps"] = case["steps"][:k + 1]
-                ctx.mismatch("pipeline_step_" + kind, cut, f"after step {k} ({names[k]}): {diff}",
+                ctx.mismatch("pipeline_step_" + kinds[k], cut_case(case, k), f"after step {k} ({names[k]}): {diff}",
                              "Model/PipelineRun.v run_trace")
-                agreed = False
-                break
+        agreed = status == "agree"
         if not has_val and (len(right.data_vars) != 0 or any(s["right"] is not None for s in snaps)):
             ctx.violation("pipeline_right_not_empty",
                           f"pipeline {names} has no validation step but right data were produced", case)
         # ---- the property on the real code: the mirrored run, step by step
         if has_val:
+            snaps2 = None
             try:
                 snaps2, _, _, _ = run_real(mirrored(case))
+            except Exception as exc:  # pylint: disable=broad-except
+                ctx.count("pipeline_mirrored_run_raised_" + pu.exc_class(exc))
+                ctx.violation("pipeline_mirrored_run_raises",
+                              f"pipeline {names} runs on (L, R, {case['disp']}) but raises {type(exc).__name__}: "
+                              f"{str(exc)[:120]} on the mirrored problem (R, L, {mirrored(case)['disp']})", case)
+            if snaps2 is not None:
                 ctx.traces += 1
                 for k, (s1, s2) in enumerate(zip(snaps, snaps2)):
                     d = first_mirror_diff(s1, s2)
                     if d:
-                        cut = dict(case)
-                        cut["steps"] = case["steps"][:k + 1]
-                        if k + 1 < len(names) and "validation" not in kinds[:k + 1]:
-                            # keep a validation step so that the cut pipeline still computes right products
-                            cut["steps"] = cut["steps"] + [next(s for s in case["steps"] if s[0].split(".")[0] == "validation")]
                         ctx.violation("pipeline_mirror_differs_after_" + kinds[k],
                                       f"pipeline {names}: after step {k} ({names[k]}) the run on (L, R, {case['disp']}) and the "
-                                      f"run on (R, L, {mirrored(case)['disp']}) differ: {d}", cut)
+                                      f"run on (R, L, {mirrored(case)['disp']}) differ: {d}", cut_case(case, k))
                         break
-            except Exception as exc:  # pylint: disable=broad-except
-                ctx.count("pipeline_mirrored_run_raised_" + pu.exc_class(exc))
         # ---- bookkeeping
         nontrivial = False
         if agreed and len(names) >= 3 and snaps and snaps[-1]["kind"] == 1 and snaps[-1]["left"] is not None:
